@@ -116,6 +116,12 @@ def run(repo, rep, tier):
     # marker is written before the body runs (C01 owns the skeleton rules)
     from . import c01
     L.borrow(repo, rep, "R13.1", "C01", c01._skeletons, ("cancel-order",))
+    # 'everything the element had emitted so far is discarded': inside a
+    # slot filler the handler truncates the list the filler was called
+    # with -- the filler's writes must go to that same list (C09 owns the
+    # filler's prologue)
+    from . import c09
+    L.borrow(repo, rep, "R13.2", "C09", c09._slots, ("fill-own-stream",))
     from .c01 import content_node_total
     okc, detail = content_node_total(repo)
     rep.check(okc, "R13.3", "chameleon.zpt.program.MacroProgram."
@@ -252,6 +258,22 @@ def run(repo, rep, tier):
                       "the error variable is bound before the fallback "
                       "expression is evaluated", construct="record-order",
                       where=where)
+        # the record's position argument has, on every alternative, as many
+        # items as ErrorInfo.__init__ reads (an entry of the token table is
+        # (token, line, column); the stand-in for 'no token' must survive
+        # the same slicing)
+        for n in ast.walk(it.tree) if it.tree is not None else ():
+            if isinstance(n, ast.Call) and n.func is b["_C"] and \
+                    len(n.args) >= 2:
+                need = _position_items(repo)
+                lens = _plen(n.args[1], _entry_arity(repo))
+                rep.check(all(x is None or x >= need for x in lens), "R13.1",
+                          site, "the position handed to the error record "
+                          "has %d items whether or not a token is set"
+                          % need, construct="position-arity", where=where,
+                          detail="%s -> %s item(s)" % (
+                              src(n.args[1])[:80], sorted(
+                                  x for x in lens if x is not None)))
     # the token may be unset (start of a render function, after an inline
     # macro call): the handler must not index the token table blindly
     for i in hrows:
@@ -446,6 +468,69 @@ def run(repo, rep, tier):
     # R13.4 plumbing
     _plumbing(repo, rep)
     L.state_rule(repo, rep)
+
+
+def _position_items(repo):
+    f = repo.func("chameleon.tal.ErrorInfo.__init__")
+    prm = f.node.args.args[2].arg if len(f.node.args.args) > 2 else None
+    idx = [n.slice.value for n in ast.walk(f.node)
+           if isinstance(n, ast.Subscript) and src(n.value) == prm
+           and isinstance(n.slice, ast.Constant)
+           and isinstance(n.slice.value, int)]
+    if prm is None or not idx:
+        raise AnalysisError("ErrorInfo.__init__: position reads not found")
+    return max(idx) + 1
+
+
+def _entry_arity(repo):
+    """items of one __tokens entry: (token,) + token.location"""
+    f = repo.func("chameleon.compiler.Compiler.__init__")
+    for n in ast.walk(f.node):
+        if isinstance(n, ast.BinOp) and isinstance(n.op, ast.Add) and \
+                isinstance(n.left, ast.Tuple) and \
+                src(n.right).endswith(".location"):
+            loc = repo.func("chameleon.tokenize.Token.location")
+            r = loc.node.returns
+            if isinstance(r, ast.Subscript) and src(r.value) == "tuple" and \
+                    isinstance(r.slice, ast.Tuple):
+                return len(n.left.elts) + len(r.slice.elts)
+    return None
+
+
+def _plen(e, entry):
+    """possible lengths of a tuple-valued generated expression (None =
+    unknown)"""
+    if isinstance(e, ast.Tuple):
+        return {len(e.elts)}
+    if isinstance(e, ast.IfExp):
+        return _plen(e.body, entry) | _plen(e.orelse, entry)
+    if isinstance(e, ast.BoolOp):
+        out = set()
+        for v in e.values:
+            out |= _plen(v, entry)
+        return out
+    if isinstance(e, ast.Subscript) and isinstance(e.slice, ast.Slice):
+        lo, up, st = e.slice.lower, e.slice.upper, e.slice.step
+        if st is None and all(x is None or (
+                isinstance(x, ast.Constant) and isinstance(x.value, int)
+                and x.value >= 0) for x in (lo, up)):
+            lo = lo.value if lo is not None else 0
+            out = set()
+            for n in _plen(e.value, entry):
+                if n is None:
+                    out.add(None)
+                else:
+                    u = n if up is None else min(up.value, n)
+                    out.add(max(0, u - lo))
+            return out
+        return {None}
+    if isinstance(e, ast.Subscript) and src(e.value) == "__tokens":
+        return {entry}
+    if isinstance(e, ast.Call) and src(e.func) == "__tokens.get":
+        if len(e.args) >= 2:
+            return {entry} | _plen(e.args[1], entry)
+        return {entry, 0}
+    return {None}
 
 
 def _static_filter(test):
